@@ -161,6 +161,7 @@ type WorldKnobs struct {
 	AltairEpoch      common.Epoch
 	ShardCommittee   common.Epoch
 	MaxCommitteeSize uint64
+	SyncPeriod       common.Epoch // EPOCHS_PER_SYNC_COMMITTEE_PERIOD (0 = 8)
 }
 
 func makeSpec(k WorldKnobs) *common.Spec {
@@ -172,6 +173,9 @@ func makeSpec(k WorldKnobs) *common.Spec {
 	sp.SHARD_COMMITTEE_PERIOD = k.ShardCommittee
 	sp.SYNC_COMMITTEE_SIZE = view.Uint64View(k.SyncCommittee)
 	sp.EPOCHS_PER_SYNC_COMMITTEE_PERIOD = 8
+	if k.SyncPeriod != 0 {
+		sp.EPOCHS_PER_SYNC_COMMITTEE_PERIOD = k.SyncPeriod
+	}
 	sp.MIN_GENESIS_ACTIVE_VALIDATOR_COUNT = 8
 	sp.ALTAIR_FORK_EPOCH = k.AltairEpoch
 	far := ^common.Epoch(0)
@@ -214,6 +218,7 @@ type World struct {
 	Nodes   map[common.Root]*Node
 	NVals   int
 	adv     map[string]*advanced
+	syncOf  map[common.BeaconState][]common.ValidatorIndex
 }
 
 type advanced struct {
@@ -271,6 +276,52 @@ func (w *World) Advance(n *Node, slot common.Slot) (common.BeaconState, *common.
 	}
 	w.adv[key] = &advanced{state: ust.BeaconState, epc: epc}
 	return ust.BeaconState, epc, nil
+}
+
+// SyncCommitteeOf: the validator indices of state.current_sync_committee, read from the STATE itself (pubkeys looked up
+// in the state's registry), not from the EpochsContext cache: "compute_subnets_for_sync_committee(state, ...)" of the
+// p2p text. nil for a state without sync committees (phase0).
+func (w *World) SyncCommitteeOf(st common.BeaconState) []common.ValidatorIndex {
+	if l, ok := w.syncOf[st]; ok {
+		return l
+	}
+	ss, ok := st.(common.SyncCommitteeBeaconState)
+	if !ok {
+		return nil
+	}
+	if w.syncOf == nil {
+		w.syncOf = map[common.BeaconState][]common.ValidatorIndex{}
+	}
+	vals, err := st.Validators()
+	must(err)
+	n, err := vals.ValidatorCount()
+	must(err)
+	byPub := make(map[common.BLSPubkey]common.ValidatorIndex, n)
+	for i := uint64(0); i < n; i++ {
+		v, err := vals.Validator(common.ValidatorIndex(i))
+		must(err)
+		pk, err := v.Pubkey()
+		must(err)
+		if _, dup := byPub[pk]; !dup {
+			byPub[pk] = common.ValidatorIndex(i)
+		}
+	}
+	cur, err := ss.CurrentSyncCommittee()
+	must(err)
+	pv, err := cur.Pubkeys()
+	must(err)
+	pubs, err := pv.Flatten()
+	must(err)
+	out := make([]common.ValidatorIndex, len(pubs))
+	for i, pk := range pubs {
+		vi, ok := byPub[pk]
+		if !ok {
+			panic(fmt.Errorf("world %s: sync committee seat %d holds a pubkey that is not in the registry", w.Name, i))
+		}
+		out[i] = vi
+	}
+	w.syncOf[st] = out
+	return out
 }
 
 func isAltair(st common.BeaconState) bool {
